@@ -115,6 +115,15 @@ CHECKS["C05"] = (
     "the ions containing it).",
     "Assumes TLC and the projection. The link between the {ax,az,bx,bz} internal group and the by ion is not judged "
     "(see DESIGN.md limits).", "DESIGN.md §6 C05")
+CHECKS["C12"] = (
+    "TLA+ CondenseStatic / StaticRules / ApplyLabels operators (Annotation.tla, Mass.tla; law StaticEqualsExplicit "
+    "model-checked in MC_Mass) + TLC trace validation of recorded condense_static_mods and of mass/comp/fragment/"
+    "count_residues on rule form vs explicit form, and of isotope-label shifts (Trace_Mass!StaticFails, LabelFails)",
+    "TLC requires the real condenser's output to be exactly the explicit form the specification computes, the same real "
+    "queries to agree on both forms, and the neutral-mass shift of a global isotope label to equal the number of atoms "
+    "of that element in residues and termini (and in modifications only when requested) times the isotope mass "
+    "difference from the independent Nist table.",
+    "Assumes TLC and the projection. Static targets are single residues / N-Term / C-Term.", "DESIGN.md §6 C12")
 NOT_YET = "check not built yet in this round (planned with the TLA+ technique, see DESIGN.md §6)"
 
 
